@@ -15,7 +15,7 @@ RULE = ("Histories of solve() calls on three long-lived instances (default AtomB
         "failing below nested parentheses. Oracle: a FRESH instance "
         "of the same configuration created for that call must give the same value, or both must raise the same "
         "exception type. Non-trivial: the history contains a failing solve with >=1 token already stored followed "
-        "Round 5: calls made inside a with-block that the exception leaves; an atom type given as a factory function. Round 4: fresh-instance answers are taken BEFORE the history as well (process-wide state), numpy error handling must be what it was after every call, names ending in e next to a sign. "
+        "Round 6: a configuration that leaves an operator without a step; user-defined operators whose constructor reads input. Round 5: calls made inside a with-block that the exception leaves; an atom type given as a factory function. Round 4: fresh-instance answers are taken BEFORE the history as well (process-wide state), numpy error handling must be what it was after every call, names ending in e next to a sign. "
         "later by an expression that succeeds on the fresh instance. Distinct = distinct case JSON.")
 ASSUMPTIONS = ["single-threaded histories", "exception messages are not compared (they embed token reprs), only the type"]
 NT_FLOOR = 0.15
@@ -134,10 +134,17 @@ factory_calls = st.sampled_from(["-2.5", "1.5*-0.5", "-3", "2*-4", "2.5*4", "7/2
                                  "2*(3+4)", "-1.5+2"]).map(lambda t: {"cfg": "factory", "text": t, "fail": None})
 
 
+orphan_calls = st.sampled_from(["1+2*3", "2", "2 > 1", "(1+2)*3", "4*(2 > 1)", "1+", "2*3+4"]).map(
+    lambda t: {"cfg": "orphan", "text": t, "fail": None})
+postfix_calls = st.sampled_from(["3.14159@2", "2.71828@3", "1.23456@1 + 2", "2 * 9.87654@3", "3.14159@2 + foo", "(3.14159@2",
+                                 "7.5 + 1", "1.23456@4 * 2", "0.55555@0"]).map(
+    lambda t: {"cfg": "postfix", "text": t, "fail": None})
+
+
 @st.composite
 def _call(draw):
     c = dict(draw(st.one_of(default_expr(), default_expr(), lookup_expr(), string_expr(), inplace_expr(), deep_fail(),
-                            lookup_tight, factory_calls)))
+                            lookup_tight, factory_calls, orphan_calls, postfix_calls)))
     # the call may be made inside 'with solver:' (an exception then leaves the block before it is caught)
     c["with"] = draw(st.integers(0, 3)) == 0
     return c
@@ -199,6 +206,36 @@ def make(cfg):
         ops = {"par": OperatorPar, "mul": OperatorMul, "truediv": OperatorTruediv, "add": OperatorAdd}
         return ExpressionSolver(Atom, ops)
 
+    if cfg == "orphan":
+        # a subset of operators with a custom step order that leaves one operator ('gt') without a step: expressions that
+        # do not use it are solved, those that do are refused - every time alike
+        from scinumtools.solver import OperatorGt
+        ops = {"par": OperatorPar, "mul": OperatorMul, "add": OperatorAdd, "gt": OperatorGt}
+        steps = [dict(operators=["par"], otype=Otype.ARGS), dict(operators=["mul"], otype=Otype.BINARY),
+                 dict(operators=["add"], otype=Otype.BINARY)]
+        return ExpressionSolver(AtomBase, ops, steps)
+    if cfg == "postfix":
+        # user-defined operators whose constructor reads more than their symbol (a postfix '@<digits>' rounding)
+        from scinumtools.solver import OperatorBase
+
+        class OperatorRound(OperatorBase):
+            symbol: str = "@"
+
+            def __init__(self, expr=None):
+                super().__init__(expr)
+                digits = ""
+                while expr.right[:1].isdigit():
+                    digits += expr.right[0]
+                    expr.remove(expr.right[0])
+                self.digits = int(digits)
+
+            def operate_unary(self, tokens):
+                left = tokens.get_left()
+                tokens.put_left(AtomBase(round(left.value, self.digits)))
+        ops = {"par": OperatorPar, "round": OperatorRound, "mul": OperatorMul, "add": OperatorAdd}
+        steps = [dict(operators=["par"], otype=Otype.ARGS), dict(operators=["round"], otype=Otype.UNARY),
+                 dict(operators=["mul"], otype=Otype.BINARY), dict(operators=["add"], otype=Otype.BINARY)]
+        return ExpressionSolver(AtomBase, ops, steps)
     if cfg == "factory":
         # the atom type given as a factory function that returns one of two classes (the package's own DIP and unit
         # solvers pass factories)
